@@ -115,8 +115,10 @@ def _posix_off(o):
     return ("-" if o > 0 else "") + "%d:%02d:%02d" % (a // 3600, a // 60 % 60, a % 60)
 
 
-def tzif_bytes(t0, before, after, nb, na):
-    """A version-2 TZif file: one transition at t0 from (before, nb) to (after, na); footer = the last type as a fixed rule."""
+def tzif_bytes(t0, before, after, nb, na, pad=0):
+    """A version-2 TZif file: one transition at t0 from (before, nb) to (after, na); footer = the last type as a fixed rule.
+    pad > 0: that many earlier transitions INTO THE SAME `before` type, an hour apart (they change nothing; they make the file large -
+    zic pads files with such entries too - and a file of any size is still that file)."""
     fixed = before == after
 
     def block(v64):
@@ -125,7 +127,7 @@ def tzif_bytes(t0, before, after, nb, na):
         else:
             types = [(before, 0, 0), (after, 0, len(nb) + 1)]
             names = nb.encode() + b"\0" + na.encode() + b"\0"
-            trans = [(t0, 1)]
+            trans = [(t0 - 3600 * (pad - k), 0) for k in range(pad)] + [(t0, 1)]
         hdr = b"TZif2" + b"\0" * 15 + struct.pack(">6I", 0, 0, 0, len(trans), len(types), len(names))
         body = b"".join(struct.pack(">q" if v64 else ">i", t) for t, _ in trans) + bytes(i for _, i in trans)
         body += b"".join(struct.pack(">iBB", o, d, i) for o, d, i in types) + names
@@ -143,7 +145,8 @@ def build_world(world, root):
     def zone_file(zid, path):
         z = world["zones"][zid]
         with open(path, "wb") as f:
-            f.write(tzif_bytes(t0 + z["t0"], z["before"], z["after"], z["nb"], z["na"]))
+            # zone B's file is larger than 64 KiB (9000 no-op transitions in front of the real one)
+            f.write(tzif_bytes(t0 + z["t0"], z["before"], z["after"], z["nb"], z["na"], pad=9000 if zid == "B" else 0))
     for text, content in world["abs"].items():
         p = os.path.join(zdir, text)
         if content == world["garbage"]:
